@@ -26,6 +26,8 @@ CONSTANTS NF, NW, NL,     \* how many frame ids / wrapper ids / leaf ids
           Fixed,          \* TRUE: insert branch as repaired (F6/F7); FALSE: as in the pinned tree
           Roots,          \* the items extraction may start from
           GenT,           \* wrapper ids that are generator-type objects (coroutine/generator/asyncgen)
+          FixedF5,        \* TRUE: /repo after the repair of F5 (a frame keeps a generator-type origin only if it is that
+                          \* object's OWN frame); FALSE: every frame produced underneath it inherited the origin
           NoWeak          \* item ids that are not weak-referenceable (frames never are)
 
 Frames == 1..NF
@@ -154,13 +156,17 @@ DropQ(s, d) == IF s = <<>> THEN <<>> ELSE IF s[1].d >= d THEN DropQ(Tail(s), d) 
 Irreducible(h) == toE' = Append(toE, [x |-> h.x, d |-> h.d, o |-> NoneItem]) /\ toU' = Tail(toU) /\ loops' = 0
 
 (* lines 123-138: a frame (raw or already wrapped) moves to the elaboration queue *)
-PopFrame ==
+\* isOwn: the popped frame is the own frame of the generator-type object recorded as its origin (own_frame() of
+\* _extract.py); in the model wrapper NF+i owns frame i, in validated traces the recorder supplies the ground truth
+PopFrameWith(isOwn) ==
   /\ pc = "unwrap" /\ toU # <<>> /\ Head(toU).x \in Frames
   /\ LET h == Head(toU)
-         org == IF h.w THEN h.o ELSE IF h.o \in GenT THEN h.o ELSE NoneItem
+         org == IF h.w THEN h.o ELSE IF h.o \in GenT /\ (FixedF5 => isOwn) THEN h.o ELSE NoneItem
      IN toE' = Append(toE, [x |-> h.x, d |-> h.d, o |-> org])
   /\ toU' = Tail(toU) /\ loops' = 0
   /\ UNCHANGED <<U, E, C, root, errors, out, leaf, pc, faults>>
+PopFrame == /\ pc = "unwrap" /\ toU # <<>>
+            /\ PopFrameWith(Head(toU).o \in GenT /\ Own(Head(toU).o) = Head(toU).x)
 
 (* lines 139-177: one call of unwrap_stackitem and what follows from it *)
 UnwrapWith(r) ==
